@@ -264,6 +264,7 @@ def run(tier, v):
     _lap("wire-level trace validation")
     cov["wire_uploads"], cov["wire_events"] = w["runs"], w["events"]
     cov["wire_uploads_ok"] = w.get("uploads_ok", 0)
+    cov["wire_slow_ack_runs"], cov["wire_blocks_split_again_after_a_shrink"] = w.get("slow_runs", 0), w.get("resplit_blocks", 0)
     cov["wire_uploads_failed"] = w.get("uploads_failed", 0)
     cov["wire_client_writes"], cov["wire_client_bytes"] = w.get("client_writes", 0), w.get("client_bytes", 0)
     cov["wire_act_to_exit"] = w.get("act_to_exit", 0)
